@@ -168,7 +168,7 @@ def shard(ctx):
 
     def body(ch):
         recipe, flavour = htmldoc.gen_html_doc(ch, kinds=htmldoc.HTML_KINDS, depth=3 if tier == 'quick' else 4,
-                                               nested_forms=None, iframe_rooted=True)
+                                               nested_forms=None, iframe_rooted=True, memo_rich=True)
         if flavour in ('lxml', 'html5lib') and ch.p(0.3):
             recipe, flavour = htmldoc.gen_html_doc(ch, kinds=(flavour,), depth=3, nested_forms=True, iframe_rooted=True)
         case = {'tree': recipe}
